@@ -64,7 +64,8 @@ PROPS = {
         "module": "MantraDex.Properties.C01", "ns": "MantraDex.C01",
         "theorems": ["swap_conserves", "route_conserves", "withdraw_conserves", "provide_multi_conserves", "single_first_leg_conserves",
                      "create_pool_conserves_partial", "config_conserves_partial", "bank_send_effect",
-                     "MantraDex.C01Sys.pm_inv_step_partial", "MantraDex.C01Sys.pm_custody_reachable_partial", "MantraDex.C01Sys.pm_inv_init"],
+                     "MantraDex.C01Sys.pm_inv_step_partial", "MantraDex.C01Sys.pm_custody_reachable_partial", "MantraDex.C01Sys.pm_inv_init",
+                     "MantraDex.C01Sys.pm_inv_step", "MantraDex.C01Sys.pm_custody_reachable"],
         "extra_modules": ["MantraDex.Properties.C01Sys"],
         "streams": {"pm_hist": (80, 4000), "faults": (30, 1500)},
         "what": "handler-level conservation law of the pool manager for every non-LP token: reserves' + outflow(messages) = reserves + inflow(funds) "
@@ -72,12 +73,12 @@ PROPS = {
                 "first leg leaves reserves untouched and forwards exactly floor(a/2) to a self-call; a bank send moves exactly the listed coins. "
                 "Together with the bank semantics this makes balance - reserves invariant under every pool operation. LIFTED THROUGH THE RUNTIME "
                 "(C01Sys): 'PM bank balance >= sum of reserves for every non-factory denom' + well-formedness + empty single-side buffer is preserved by "
-                "every whole transaction (nested farm-manager calls, reply modes, rollback, injected faults) other than a single-asset deposit, and "
-                "holds in every state reachable by such histories (pm_inv_step_partial, pm_custody_reachable_partial, pm_inv_init)",
-        "assumptions": ["the lift through the runtime to whole transactions is proved (C01Sys) for every transaction except single-asset deposits, for "
-                        "non-factory denoms, for the runtime/bank MODEL (trusted, exercised by the streams) and account-signed transactions; the "
-                        "single-asset path (first leg, self-swap, reply, second leg) is validated by the custody + excess monitors and the C14 twin on every "
-                        "step of the history and fault streams, not proved",
+                "every whole transaction (nested farm-manager calls, reply modes, rollback, injected faults) INCLUDING the single-asset deposit "
+                "(first leg, self-swap, reply with exact balance checks, second leg; simulation = swap closes the accounting) and holds in every "
+                "reachable state (pm_inv_step, pm_custody_reachable, pm_inv_init; the _partial versions are the intermediate result)",
+        "assumptions": ["the lift through the runtime to whole transactions is proved (C01Sys) for every transaction kind, for non-factory denoms (LP tokens "
+                        "are factory denoms), for the runtime/bank MODEL (trusted, exercised by the streams), account-signed transactions and a pool creation "
+                        "fee <= u128::MAX/2; on the implementation it is validated by the custody + excess monitors on every step of the history and fault streams",
                         "create_pool law needs creation fee + token-factory fee not to overflow u128 (proved counterexample otherwise); config law needs unique pool ids"],
     },
     "C14": {
@@ -112,25 +113,35 @@ PROPS = {
         "module": "MantraDex.Properties.C16", "ns": "MantraDex.C16",
         "theorems": ["createPool_shape", "createPool_funds_exact", "createPool_messages", "static_fields_immutable_partial",
                      "static_fields_immutable_counterexample", "static_fields_immutable_of_nodup", "reply_keeps_pools", "ids_unique_preserved",
-                     "aligned_preserved"],
+                     "aligned_preserved",
+                     "MantraDex.C16Sys.pools_static_step", "MantraDex.C16Sys.pools_static_reachable", "MantraDex.C16Sys.lp_denoms_unique_step"],
+        "extra_modules": ["MantraDex.Properties.C16Sys"],
         "streams": {"pm_hist": (80, 4000)},
         "what": "an accepted CreatePool has 2 (constant product) / 2-4 distinct assets (stableswap, amp != 0), matching decimals, valid fees (each < 100%, "
                 "total <= 20%), a well-formed fresh identifier (o.<given> / p.<counter+1>), attached exactly the creation + token-factory fees, and "
                 "emits exactly [send creation fee to collector]? ++ [create LP denom]; every later message keeps every pool and its static fields "
                 "(given unique ids, which every message preserves; without that a proved counterexample exists), keeps identifiers unique and keeps "
-                "reserves aligned with asset_denoms (what F-08 broke)",
+                "reserves aligned with asset_denoms (what F-08 broke). LIFTED THROUGH THE RUNTIME (C16Sys): across every whole transaction of any sender "
+                "(nested calls, replies, rollback, faults) and hence every history, no pool is removed, static fields never change, identifiers and LP denoms "
+                "stay unique (pools_static_step, pools_static_reachable, lp_denoms_unique_step)",
     },
 
     "C17": {
         "module": "MantraDex.Properties.C17", "ns": "MantraDex.C17",
         "theorems": ["swap_disabled_direct", "performSwap_status", "route_requires_enabled", "deposit_disabled", "withdraw_disabled",
-                     "single_asset_blocked_by_swap_switch", "toggle_only_named_pool", "reenable_restores", "new_pool_all_enabled"],
+                     "single_asset_blocked_by_swap_switch", "toggle_only_named_pool", "reenable_restores", "new_pool_all_enabled",
+                     "MantraDex.C17NI.more_enabled_simulates", "MantraDex.C17NI.less_enabled_refuses_or_same", "MantraDex.C17NI.reply_simulates",
+                     "MantraDex.C17NI.simulation_ignores_switches"],
+        "extra_modules": ["MantraDex.Properties.C17NI"],
         "streams": {"pm_hist": (80, 4000), "twin": (60, 3000)},
         "what": "swaps disabled: direct swap rejected, any route through the pool rejected as a whole, a single-asset deposit's whole transaction "
                 "rejected (through the runtime: its inner swap is a reply-on-success sub-message); deposits disabled: every deposit shape rejected; "
                 "withdrawals disabled: rejected; swaps never change any switch; a toggle touches only the named pool and only its switches; "
-                "re-enabling restores the pool exactly; new pools start fully enabled",
-        "assumptions": ["non-interference on the remaining operations is validated by the twin-deployment stream (mon_twin_c17), not proved"],
+                "re-enabling restores the pool exactly; new pools start fully enabled. NON-INTERFERENCE (C17NI): two states differing only in pool switches "
+                "give the same response and related result states on every message, except that the less enabled one may refuse with `disabled` "
+                "(more_enabled_simulates, less_enabled_refuses_or_same, reply_simulates, simulation_ignores_switches)",
+        "assumptions": ["non-interference is proved at the level of the pool manager's entry points (execute, reply, simulation query); across whole "
+                        "transactions on the implementation it is validated by the twin-deployment stream (mon_twin_c17)"],
     },
     "C20": {
         "module": "MantraDex.Properties.C20", "ns": "MantraDex.C20",
